@@ -279,9 +279,8 @@ def install_local_findings(ctx):
 
 
 def check_call_sites(ctx):
-    """The hypothesis of get_ok_items_partial (callers return itemBuf.B as handed out) is a fact about
-    the package's source: no code outside getItemBuf/putItemBuf assigns the B field of an itemBuf, and
-    every function that calls getItemBuf also calls putItemBuf."""
+    """Informational since the fix of C42-1 (get_ok_items needs no hypothesis about callers any more):
+    records whether callers still return itemBuf.B as handed out."""
     bad = []
     for fn in sorted(os.listdir(REPO)):
         if not fn.endswith(".go") or fn.endswith("_test.go"):
@@ -303,9 +302,7 @@ def check_call_sites(ctx):
                             re.search(r"\b%s\.B\s*=\s*append" % re.escape(v), body):
                         bad.append(f"{fn}:{name} re-assigns {v}.B before putItemBuf")
     ctx.extra["itembuf_call_sites_ok"] = not bad
-    for b in bad:
-        ctx.violation("correspondence", "assumption of get_ok_items_partial no longer holds: " + b,
-                      signature={"kind": "call-site", "what": b}, replay={"what": b}, no_input=True)
+    ctx.extra["itembuf_call_site_notes"] = bad
 
 
 def run(ctx):
@@ -318,8 +315,8 @@ def run(ctx):
         "a buffer is not used by its previous owner after Put (no aliasing through the pool)",
         "sync.Pool behaves as a bag that may lose items (model: explicit choice / forget); which item it "
         "returns is taken from the observed run and validated, not predicted",
-        "item buffers: callers return itemBuf.B with zero items beyond len (true for the 3 call sites in "
-        "writer.go; otherwise finding C42-1)"]
+        "none about callers of the item-buffer pool: puts of re-sliced dirty buffers are generated (finding "
+        "C42-1 is fixed; its replay stays in the corpus)"]
     local = install_local_findings(ctx)
     proofs_ok = ctx.lean_obligations()
     bin_bpool = ctx.go_test_binary("internal/bpool", ["props/C42/harness/internal__bpool/zz_verif_c42_test.go"])
@@ -358,9 +355,9 @@ def run(ctx):
         n = ctx.scale(120, 4000)
         for kind in ("bytes", "slices", "items"):
             for i in range(n):
-                scenarios.append(gen_scenario(ctx.rng, kind, undisciplined=(kind != "items" and i % 3 == 0)))
-        for i in range(ctx.scale(4, 40)):
-            scenarios.append(gen_scenario(ctx.rng, "items", undisciplined=True))
+                # undisciplined = buffers returned with B shortened over non-zero elements / non-zero
+                # elements beyond len (the situation of the fixed finding C42-1): generated for all pools
+                scenarios.append(gen_scenario(ctx.rng, kind, undisciplined=(i % 2 == 0)))
 
     ops = [op for sc in scenarios for op in sc]
     impl, ks = runner.impl(ops)
